@@ -156,6 +156,8 @@ func runC04(c *Ctx) {
 	frag := 1 + g.Draw(3)
 	poolPol := pick(g, simsync.PoolLIFO, simsync.PoolLIFO, simsync.PoolRandom, simsync.PoolFIFO, simsync.PoolFresh)
 	simsync.SetPolicy(poolPol, uint64(g.Draw(1<<16))+1, 0)
+	guardDone := guardOn(c)
+	defer guardDone()
 	nBranch := 1 + g.Weighted(5, 3, 1)
 	table := map[string]func(u *url.URL) (zap.Sink, error){}
 	useSimScheme(table)
